@@ -102,7 +102,7 @@ impl Check for C09 {
     }
     fn gens(&self) -> Vec<GenSpec> {
         vec![
-            GenSpec { name: "det-fd", quick: 1500, thorough: 80_000 },
+            GenSpec { name: "det-fd", quick: 1500, thorough: 40_000 },
             GenSpec { name: "det-tree", quick: 2500, thorough: 100_000 },
             GenSpec { name: "det-search", quick: 1500, thorough: 60_000 },
             GenSpec { name: "xproc", quick: 160, thorough: 8000 },
